@@ -20,9 +20,11 @@ EXTENDS Naturals, Sequences, FiniteSets, TLC, Json
 CONSTANTS MaxList, Rich   \* Rich: TRUE = full combinator set, FALSE = atoms + not only
 
 \* type hierarchy: V is nnx.Variable, P <: V, P2 <: P, Q <: V
-Sub(t, u) == \/ t = u
-             \/ u = "V"
-             \/ (t = "P2" /\ u = "P")
+\* "VS" is the leaf container class itself (nnx.VariableState); "raw" is a plain array leaf of a State
+Sub(t, u) == /\ t # "raw"
+             /\ \/ t = u
+                \/ u \in {"V", "VS"}
+                \/ (t = "P2" /\ u = "P")
 
 Items == {
   [id |-> 1, path |-> <<"a", "x">>,      t |-> "P",  tag |-> ""],
@@ -30,7 +32,8 @@ Items == {
   [id |-> 3, path |-> <<"b", "x">>,      t |-> "Q",  tag |-> ""],
   [id |-> 4, path |-> <<"b", "y">>,      t |-> "Q",  tag |-> "t1"],
   [id |-> 5, path |-> <<"c">>,           t |-> "P",  tag |-> "t1"],
-  [id |-> 6, path |-> <<"a", "b", "z">>, t |-> "V",  tag |-> ""] }
+  [id |-> 6, path |-> <<"a", "b", "z">>, t |-> "V",  tag |-> ""],
+  [id |-> 7, path |-> <<"r">>,           t |-> "raw", tag |-> ""] }
 
 Ty(t)   == [k |-> "type", t |-> t]
 Tag(s)  == [k |-> "tag", s |-> s]
@@ -44,18 +47,27 @@ AnyF(fs) == [k |-> "any", fs |-> fs]
 AllF(fs) == [k |-> "all", fs |-> fs]
 SeqF(fs) == [k |-> "seq", fs |-> fs]
 
-Atoms == {Ty("V"), Ty("P"), Ty("P2"), Ty("Q"), Tag("t1"), Tag("t2"), PC("a"), PC("b"), PC("x"),
+Atoms == {Ty("V"), Ty("VS"), Ty("P"), Ty("P2"), Ty("Q"), Tag("t1"), Tag("t2"), PC("a"), PC("b"), PC("x"),
           PIn({<<"a", "x">>, <<"c">>}), PIn({}),
           Lit("true"), Lit("false"), Lit("ellipsis"), Lit("none"), Ev, No}
 Small == {Ty("P"), Ty("Q"), Tag("t1"), PC("a"), Lit("none"), Lit("ellipsis")}
 
+Tiny  == {Ty("P"), Ty("Q"), Tag("t1"), PC("a")}
 Pairs == {<<f, g>> : f \in Small, g \in Small}
+TPairs == {<<f, g>> : f \in Tiny, g \in Tiny}
 Combos == {NotF(f) : f \in Atoms}
           \cup (IF Rich THEN {AnyF(p) : p \in Pairs} \cup {AllF(p) : p \in Pairs} \cup {SeqF(p) : p \in Pairs}
                              \cup {AnyF(<<>>), AllF(<<>>), SeqF(<<>>)}
-                             \cup {NotF(AllF(p)) : p \in Pairs}
+                             \cup {NotF(AllF(p)) : p \in Pairs} \cup {NotF(SeqF(p)) : p \in TPairs}
+                             \* nested sequences inside combinators: All((A, B), C) = (A or B) and C
+                             \cup {AllF(<<SeqF(p), x>>) : p \in TPairs, x \in Tiny}
+                             \cup {AnyF(<<AllF(p), x>>) : p \in TPairs, x \in Tiny}
+                             \cup {AllF(<<x, NotF(SeqF(p))>>) : p \in TPairs, x \in Tiny}
                 ELSE {})
 AllFilters == Atoms \cup Combos
+\* filters used at every position of longer lists
+Core == Atoms \cup {NotF(f) : f \in Small}
+        \cup (IF Rich THEN {AnyF(p) : p \in TPairs} \cup {AllF(p) : p \in TPairs} \cup {SeqF(p) : p \in TPairs} ELSE {})
 
 (***************************************************************************)
 (* Denotation of a filter on an item.                                      *)
@@ -95,7 +107,9 @@ SeqsUpTo(S_, n) == IF n = 0 THEN {<<>>}
                    ELSE LET prev == SeqsUpTo(S_, n - 1)
                         IN prev \cup {Append(q, x) : q \in {p \in prev : Len(p) = n - 1}, x \in S_}
 
-Init == case \in (SeqsUpTo(AllFilters, MaxList) \ {<<>>})
+Init == case \in ({<<f>> : f \in AllFilters}
+                   \cup (SeqsUpTo(Core, IF Rich THEN 2 ELSE MaxList) \ {<<>>})
+                   \cup (IF Rich /\ MaxList >= 3 THEN SeqsUpTo(Small, 3) \ {<<>>} ELSE {}))
 Next == UNCHANGED case
 
 Ids == {it.id : it \in Items}
